@@ -40,14 +40,14 @@ inductive Ev
 inductive E
   | closed | invalidMethod | invalidURI | lfExpected | crExpected | invalidCharInHeader
   | invalidStatusCode | invalidStatus | invalidChunkSize | trailerExpected | tooLong
-  | badTE | badCL | badTrailerKey | invalidTrailer | badProto | badURL | atoi | unreachable
+  | badTE | badCL | badTrailerKey | invalidTrailer | badProto | badURL | atoi | badVersionTail | unreachable
   deriving DecidableEq, Repr
 
 def E.code : E → Nat
   | .closed => 1 | .invalidMethod => 2 | .invalidURI => 3 | .lfExpected => 4 | .crExpected => 5
   | .invalidCharInHeader => 6 | .invalidStatusCode => 7 | .invalidStatus => 8 | .invalidChunkSize => 9
   | .trailerExpected => 10 | .tooLong => 11 | .badTE => 12 | .badCL => 13 | .badTrailerKey => 14
-  | .invalidTrailer => 15 | .badProto => 16 | .badURL => 17 | .atoi => 18 | .unreachable => 99
+  | .invalidTrailer => 15 | .badProto => 16 | .badURL => 17 | .atoi => 18 | .badVersionTail => 19 | .unreachable => 99
 
 structure Cfg where
   isClient : Bool
@@ -69,6 +69,7 @@ structure P where
   contentLength : Int := 0
   chunkSize : Int := 0
   chunked : Bool := false
+  chunkExt : Bool := false      -- the ';' of a chunk extension has been seen on the current chunk-size line
   headerExists : Bool := false
   bodyHeld : Nat := 0           -- BodyReader.left of the message under construction
   deriving Repr
@@ -141,15 +142,6 @@ def splitComma (b : Bytes) : List Bytes :=
       | [] => [[c]]
       | h :: t => (c :: h) :: t) [[]])
 
-/-- `parseTransferEncoding` (parser.go:710-727): absent, or exactly one value equal to `chunked` (trimmed, any case) -/
-def parseTE (p : P) : Except E P :=
-  match p.te with
-  | [] => pure p
-  | [v] =>
-    if (trim v).map toLower ≠ str "chunked" then throw E.badTE
-    else pure { p with te := [], cl := [], chunked := true }
-  | _ :: _ :: _ => throw E.badTE
-
 /-- `parseContentLength` (parser.go:730-765): absent, or the first value with trailing spaces removed through
     `ParseInt(·, 10, 63)` (an empty value is an error like any other non-numeric one); negative values rejected; every
     further Content-Length value must be equal to the first (trailing spaces aside) -/
@@ -161,6 +153,21 @@ def parseCL (p : P) : Except E P :=
     else match parseCLValue (trimRightSpaces v) with
       | none => throw E.badCL
       | some l => if l < 0 then throw E.badCL else pure { p with contentLength := l }
+
+/-- `parseTransferEncoding` (parser.go): absent, or exactly one value equal to `chunked` (trimmed, any case); a
+    Content-Length next to it is validated (`parseContentLength`) before it is discarded -/
+def parseTE (p : P) : Except E P :=
+  match p.te with
+  | [] => pure p
+  | [v] =>
+    if (trim v).map toLower ≠ str "chunked" then throw E.badTE
+    else match p.cl with
+      | [] => pure { p with te := [], cl := [], chunked := true }
+      | _ :: _ =>
+        match parseCL p with
+        | .error e => throw e
+        | .ok _ => pure { p with te := [], cl := [], chunked := true }
+  | _ :: _ :: _ => throw E.badTE
 
 /-- parseTransferEncoding; parseContentLength at the blank line -/
 def endOfHeaders (p : P) : Except E P := do
@@ -236,6 +243,7 @@ def byteStep (g : Cfg) (p : P) (tok : Bytes) (c : UInt8) : Out P Ev :=
     else if c == CR then
       let pr := if p.proto = [] then tok else p.proto
       if g.protoOk pr then ok { p with proto := [], st := .protoLF } .keep [.proto pr] else er .badProto
+    else if p.proto ≠ [] then er .badVersionTail     -- after the version only spaces may precede the CR
     else ok p
   | .protoLF => if c == LF then ok { p with st := .headerKeyBefore } .next else er .lfExpected
   | .clientProtoBefore => if c == 72 then ok { p with st := .clientProto } .here else er .invalidMethod
@@ -246,7 +254,7 @@ def byteStep (g : Cfg) (p : P) (tok : Bytes) (c : UInt8) : Out P Ev :=
     else ok p
   | .statusCodeBefore =>
     if c == SP then er .invalidStatusCode
-    else if isNum c then ok { p with st := .statusCode } .here else ok p
+    else if isNum c then ok { p with st := .statusCode } .here else er .invalidStatusCode
   | .statusCode =>
     if c == SP then
       match parseNat 10 isNum tok with
@@ -254,11 +262,12 @@ def byteStep (g : Cfg) (p : P) (tok : Bytes) (c : UInt8) : Out P Ev :=
       | none => er .atoi
     else if !isNum c then er .invalidStatusCode else ok p
   | .statusBefore =>
-    if c == SP then er .invalidStatus
+    if c == SP || c == LF then er .invalidStatus
     else if c == CR then ok { p with statusCode := 0, st := .statusLF } .keep [.status p.statusCode []]
     else if isAlpha c then ok { p with st := .status } .here else ok p
   | .status =>
-    if c == CR then
+    if c == LF then er .invalidStatus
+    else if c == CR then
       let s := if p.status = [] then trimRightSpaces tok else p.status
       ok { p with statusCode := 0, status := [], st := .statusLF } .keep [.status p.statusCode s]
     else ok p
@@ -304,14 +313,21 @@ def byteStep (g : Cfg) (p : P) (tok : Bytes) (c : UInt8) : Out P Ev :=
     else er .lfExpected
   | .bodyContentLength => er .unreachable
   | .chunkSizeBefore =>
-    if isHex c then ok { p with chunkSize := -1, st := .chunkSize } .here else er .invalidChunkSize
+    if isHex c then ok { p with chunkSize := -1, chunkExt := false, st := .chunkSize } .here else er .invalidChunkSize
   | .chunkSize =>
-    if c == SP then
-      match parseChunk p tok with | .ok p => ok p | .error e => er e
+    if c == LF then er .invalidChunkSize
     else if c == CR then
       match parseChunk p tok with | .ok p => ok { p with st := .chunkSizeLF } .next | .error e => er e
-    else if !isHex c then
-      match parseChunk p tok with | .ok p => ok p | .error e => er e
+    else if p.chunkSize < 0 then
+      -- the size token: hex digits, ended by whitespace or the ';' of a chunk extension
+      if isHex c then ok p
+      else if c != SP && c != 9 && c != 59 then er .invalidChunkSize
+      else match parseChunk p tok with | .ok p => ok { p with chunkExt := c == 59 } | .error e => er e
+    else if !p.chunkExt then
+      -- after the size only whitespace or a chunk extension
+      if c == SP || c == 9 then ok p
+      else if c == 59 then ok { p with chunkExt := true }
+      else er .invalidChunkSize
     else ok p
   | .chunkSizeLF =>
     if c == LF then
@@ -327,6 +343,7 @@ def byteStep (g : Cfg) (p : P) (tok : Bytes) (c : UInt8) : Out P Ev :=
     if isToken c then ok { p with st := .trKey } .here
     else if c == CR then
       if p.trailer ≠ [] then er .trailerExpected else ok { p with st := .tailLF } .next
+    else if c != SP then er .invalidCharInHeader   -- only spaces may precede a trailer field name
     else ok p
   | .trKey =>
     if c == SP then ok { p with hKey := if p.hKey = [] then canonicalKey tok else p.hKey }
@@ -338,9 +355,11 @@ def byteStep (g : Cfg) (p : P) (tok : Bytes) (c : UInt8) : Out P Ev :=
     else if c == CR then
       let v := if p.hVal = [] then tok else p.hVal
       ok { p with hKey := [], hVal := [], st := .trValueLF } .next [.trailer p.hKey v]
+    else if c == LF then er .invalidCharInHeader
     else ok { p with st := .trValue } .here
   | .trValue =>
-    if c == CR then
+    if c == LF then er .invalidCharInHeader
+    else if c == CR then
       let v := if p.hVal = [] then trimRightSpaces tok else p.hVal
       if p.trailer = [] then er .invalidTrailer
       else ok { p with trailer := p.trailer.erase p.hKey, hKey := [], hVal := [], st := .trValueLF } .next
